@@ -132,3 +132,16 @@ CLAIMED["C16"] = (
     "the server's TCP port and UDP port, and real peers with documented names must relay a TCP echo (every link incl. QUIC) and a datagram echo; for "
     "refused tuples nothing may stay bound and nothing may panic. TLC validates every observation record (Conforms per record).",
     TB + "; reference client = my offline reading of SIP004/SIP022/Trojan; how a refusal is reported is not judged", "5.16")
+CLAIMED["C09"] = (
+    "model_checking", "TLA+ SharedState (process-wide datagram cipher cache as Call/Acquire/Body/Exit/Use steps of 2-4 threads; TLC: MutexOnCache, NoCorruption, RightCipher, Termination; deviation Unsynchronised) + Handshake concurrent configurations (salt cache), TLC-exported interleavings replayed on real threads through the real get_cipher with a sync-point controller, cache events recorded inside free-running threads and inside real multi-threaded client/server processes validated by TLC against TraceSharedState, every concurrent flow / datagram session validated on its own against TraceRelay / TraceUdp",
+    "TLC checks SharedState.tla (the cipher cache every Shadowsocks 2022 datagram encode and decode of every task goes through: at most one thread inside, "
+    "no restructuring under another thread, each call gets the cipher of its own key, termination) for 2-4 threads x 2 calls with equal, distinct and "
+    "mixed keys, and Handshake.tla with 2 (thorough: 3) concurrent copies of one request; Unsynchronised, TryLock and NonAtomicSet - what the code used to "
+    "do - violate them. Every exported interleaving (all 52+52 of two threads x one call, samples of the 23 000 longer ones) is replayed on real threads "
+    "with the sync-point controller: while one thread is parked inside the cache the next one is released early and must not get in, every datagram "
+    "produced is opened by the reference codec. 2-16 free-running OS threads encode/decode through one shared codec and real client + server on 2-16 tokio "
+    "workers carry 24 (thorough: 64) TCP flows and 4 (8) datagram sessions at once on Shadowsocks 2022, VMess and Trojan configurations: the enter/exit "
+    "events recorded inside get_cipher are validated by TLC against TraceSharedState, every flow against TraceRelay, every datagram session against "
+    "TraceUdp, each deterministic flow's result must equal its result when run alone, and one Shadowsocks 2022 request presented on 16 connections at "
+    "once must be accepted exactly once.",
+    TB + "; Engine B (lib/e2e.py, lib/relayrun.py, checks/c02.py runners); natural schedules inside the processes are observed, not chosen", "5.9")
